@@ -23,7 +23,7 @@ theorem kstep_srcInitEnd (fuel : Nat) (hk : KInv s a) (hsrc : a.src = .init q []
     (hp : popMin s.agenda = some (q, rest)) (hrest : rest.Perm (a.wire.entries ++ a.pend.toList)) :
     ∃ s', step (body cfg losses delays) (fuel + 1) s = .ok s' ∧
       KInv s' { a with src := .ending ⟨q.time, NORMAL, s.eid, 2⟩ } ∧
-      s'.now = q.time ∧ outsOf s'.trace = outsOf s.trace := by
+      s'.now = q.time ∧ outsOf s'.trace = outsOf s.trace ∧ leftsOf s'.trace = leftsOf s.trace := by
   have hsk := hk.src
   rw [hsrc] at hsk
   obtain ⟨hqe, ⟨hkind, hcbs, hout⟩, hproc, ⟨hpk, hpc, hpo⟩⟩ := hsk
@@ -44,7 +44,7 @@ theorem kstep_srcInitEnd (fuel : Nat) (hk : KInv s a) (hsrc : a.src = .init q []
     refine ⟨?_, ?_⟩
     · rintro rfl; exact hc _ hcbs0 (by simp)
     · rintro rfl; exact hc _ (by simpa [KState.ev] using hpc) (by simp)
-  refine ⟨⟨?_, ?_, ?_, ?_, ?_, ?_, ?_, ?_, ?_⟩, ?_⟩
+  refine ⟨⟨?_, ?_, ?_, ?_, ?_, ?_, ?_, ?_, ?_⟩, ?_, ?_⟩
   · exact wf_push1 hwf.1 _ rfl rfl rfl rfl (le_refl _)
   · refine (List.Perm.cons _ hrest).trans ?_
     simp only [A.entries, SPhase.entries, List.singleton_append]
@@ -61,13 +61,14 @@ theorem kstep_srcInitEnd (fuel : Nat) (hk : KInv s a) (hsrc : a.src = .init q []
   · intro k hk'
     wsimp [hct k hk']
   · simp [outsOf_push]
+  · simp [leftsOf_push]
 
 /-- the source's `Initialize` event: it sleeps until the first arrival -/
 theorem kstep_srcInitWait (fuel : Nat) {gap : ℚ} {arr : List ℚ} (hk : KInv s a) (hsrc : a.src = .init q (gap :: arr)) (hgap : 0 ≤ gap)
     (hp : popMin s.agenda = some (q, rest)) (hrest : rest.Perm (a.wire.entries ++ a.pend.toList)) :
     ∃ s', step (body cfg losses delays) (fuel + 1) s = .ok s' ∧
       KInv s' { a with src := .wait 0 arr ⟨q.time + gap, NORMAL, s.eid, s.events.size⟩ } ∧
-      s'.now = q.time ∧ outsOf s'.trace = outsOf s.trace := by
+      s'.now = q.time ∧ outsOf s'.trace = outsOf s.trace ∧ leftsOf s'.trace = leftsOf s.trace := by
   have hsk := hk.src
   rw [hsrc] at hsk
   obtain ⟨hqe, ⟨hkind, hcbs, hout⟩, hproc, ⟨hpk, hpc, hpo⟩⟩ := hsk
@@ -85,7 +86,7 @@ theorem kstep_srcInitWait (fuel : Nat) {gap : ℚ} {arr : List ℚ} (hk : KInv s
   wsimp [hqe, hgs, hkind, hcbs, hout, hres, hrsz, Nat.ne_of_lt hgs, Nat.ne_of_lt h2, hpk, hpc, hpo, h2, hgap]
   have hfr : ∀ x < s.events.size, (∀ c, (s.ev x).cbs = some c → c ∉ [[Cb.resume 2]]) → x ≠ 3 := by
     intro x _ hc; rintro rfl; exact hc _ hcbs0 (by simp)
-  refine ⟨⟨?_, ?_, ?_, ?_, ?_, ?_, ?_, ?_, ?_⟩, ?_⟩
+  refine ⟨⟨?_, ?_, ?_, ?_, ?_, ?_, ?_, ?_, ?_⟩, ?_, ?_⟩
   · exact wf_push1 hwf.1 _ rfl rfl rfl rfl (by show q.time ≤ q.time + gap; linarith)
   · refine (List.Perm.cons _ hrest).trans ?_
     simp only [A.entries, SPhase.entries, List.singleton_append]
@@ -104,6 +105,7 @@ theorem kstep_srcInitWait (fuel : Nat) {gap : ℚ} {arr : List ℚ} (hk : KInv s
   · intro k hk'
     wsimp [hct k hk']
   · simp [outsOf_push]
+  · simp [leftsOf_push]
 
 /-- the last arrival: the source's timeout fires, `Wire.put(packet)`, the generator returns -/
 theorem kstep_srcPutEnd (fuel : Nat) {next : Nat} (hk : KInv s a) (hsrc : a.src = .wait next [] q) (hn : a.pend = none) (hnext : next = a.cts.length)
@@ -111,7 +113,7 @@ theorem kstep_srcPutEnd (fuel : Nat) {next : Nat} (hk : KInv s a) (hsrc : a.src 
     ∃ s', step (body cfg losses delays) (fuel + 1) s = .ok s' ∧
       KInv s' { a with src := .ending ⟨q.time, NORMAL, s.eid + 1, 2⟩, pend := some ⟨q.time, NORMAL, s.eid, s.events.size⟩,
                        items := a.items ++ [(next : Int)], cts := a.cts ++ [q.time] } ∧
-      s'.now = q.time ∧ outsOf s'.trace = outsOf s.trace := by
+      s'.now = q.time ∧ outsOf s'.trace = outsOf s.trace ∧ leftsOf s'.trace = leftsOf s.trace := by
   have hsk := hk.src
   rw [hsrc] at hsk
   obtain ⟨⟨hkind, hcbs, hout⟩, hproc, ⟨hpk, hpc, hpo⟩⟩ := hsk
@@ -134,7 +136,7 @@ theorem kstep_srcPutEnd (fuel : Nat) {next : Nat} (hk : KInv s a) (hsrc : a.src 
     refine ⟨?_, ?_⟩
     · rintro rfl; exact hc _ hcbs0 (by simp)
     · rintro rfl; exact hc _ hpc0 (by simp)
-  refine ⟨⟨?_, ?_, ?_, ?_, ?_, ?_, ?_, ?_, ?_⟩, ?_⟩
+  refine ⟨⟨?_, ?_, ?_, ?_, ?_, ?_, ?_, ?_, ?_⟩, ?_, ?_⟩
   · exact wf_push2 hwf.1 _ _ rfl rfl rfl rfl rfl (le_refl _) (le_refl _)
   · rw [hn] at hrest
     simp only [A.entries, SPhase.entries, Option.toList, List.append_nil] at hrest ⊢
@@ -163,6 +165,7 @@ theorem kstep_srcPutEnd (fuel : Nat) {next : Nat} (hk : KInv s a) (hsrc : a.src 
     · subst heq
       wsimp [hnext]
   · simp [outsOf_push]
+  · simp [leftsOf_push]
 
 /-- an arrival: the source's timeout fires, `Wire.put(packet)`, then it sleeps until the next arrival -/
 theorem kstep_srcPutWait (fuel : Nat) {next : Nat} {gap : ℚ} {arr : List ℚ} (hk : KInv s a) (hsrc : a.src = .wait next (gap :: arr) q) (hn : a.pend = none) (hnext : next = a.cts.length) (hgap : 0 ≤ gap)
@@ -170,7 +173,7 @@ theorem kstep_srcPutWait (fuel : Nat) {next : Nat} {gap : ℚ} {arr : List ℚ} 
     ∃ s', step (body cfg losses delays) (fuel + 1) s = .ok s' ∧
       KInv s' { a with src := .wait (next + 1) arr ⟨q.time + gap, NORMAL, s.eid + 1, s.events.size + 1⟩,
                        pend := some ⟨q.time, NORMAL, s.eid, s.events.size⟩, items := a.items ++ [(next : Int)], cts := a.cts ++ [q.time] } ∧
-      s'.now = q.time ∧ outsOf s'.trace = outsOf s.trace := by
+      s'.now = q.time ∧ outsOf s'.trace = outsOf s.trace ∧ leftsOf s'.trace = leftsOf s.trace := by
   have hsk := hk.src
   rw [hsrc] at hsk
   obtain ⟨⟨hkind, hcbs, hout⟩, hproc, ⟨hpk, hpc, hpo⟩⟩ := hsk
@@ -190,7 +193,7 @@ theorem kstep_srcPutWait (fuel : Nat) {next : Nat} {gap : ℚ} {arr : List ℚ} 
   wsimp [hgs, hkind, hcbs, hout, hres, hrsz, Nat.ne_of_lt hgs, Nat.ne_of_lt h2, hne2, Ne.symm hne2, hpk, hpc, hpo, hc0, h2, hgap, Nat.ne_of_lt (Nat.lt_succ_of_lt hgs)]
   have hfr : ∀ x < s.events.size, (∀ c, (s.ev x).cbs = some c → c ∉ [[Cb.resume 2]]) → x ≠ q.ev := by
     intro x _ hc; rintro rfl; exact hc _ hcbs0 (by simp)
-  refine ⟨⟨?_, ?_, ?_, ?_, ?_, ?_, ?_, ?_, ?_⟩, ?_⟩
+  refine ⟨⟨?_, ?_, ?_, ?_, ?_, ?_, ?_, ?_, ?_⟩, ?_, ?_⟩
   · exact wf_push2 hwf.1 _ _ rfl rfl rfl rfl rfl (by show q.time ≤ q.time + gap; linarith) (le_refl _)
   · rw [hn] at hrest
     simp only [A.entries, SPhase.entries, Option.toList, List.append_nil] at hrest ⊢
@@ -222,12 +225,13 @@ theorem kstep_srcPutWait (fuel : Nat) {next : Nat} {gap : ℚ} {arr : List ℚ} 
     · subst heq
       wsimp [hnext]
   · simp [outsOf_push]
+  · simp [leftsOf_push]
 
 /-- the process event of the finished source is processed: nothing happens -/
 theorem kstep_srcEnd (fuel : Nat) (hk : KInv s a) (hsrc : a.src = .ending q)
     (hp : popMin s.agenda = some (q, rest)) (hrest : rest.Perm (a.wire.entries ++ a.pend.toList)) :
     ∃ s', step (body cfg losses delays) (fuel + 1) s = .ok s' ∧ KInv s' { a with src := .done } ∧
-      s'.now = q.time ∧ outsOf s'.trace = outsOf s.trace := by
+      s'.now = q.time ∧ outsOf s'.trace = outsOf s.trace ∧ leftsOf s'.trace = leftsOf s.trace := by
   have hsk := hk.src
   rw [hsrc] at hsk
   obtain ⟨hqe, ⟨hkind, hcbs, hout⟩⟩ := hsk
@@ -254,7 +258,7 @@ store empty: nothing happens -/
 theorem kstep_putIdle (fuel : Nat) (hk : KInv s a) (hpe : a.pend = some q) (hw : a.wire.getQ = [] ∨ a.items = [])
     (hp : popMin s.agenda = some (q, rest)) (hrest : rest.Perm (a.wire.entries ++ a.src.entries)) :
     ∃ s', step (body cfg losses delays) (fuel + 1) s = .ok s' ∧ KInv s' { a with pend := none } ∧
-      s'.now = q.time ∧ outsOf s'.trace = outsOf s.trace := by
+      s'.now = q.time ∧ outsOf s'.trace = outsOf s.trace ∧ leftsOf s'.trace = leftsOf s.trace := by
   obtain ⟨hkind, hcbs, hout⟩ := hk.pend q hpe
   have hcbs0 := hcbs
   have hgs : q.ev < s.events.size := KState.lt_of_cbs hcbs
@@ -308,7 +312,7 @@ theorem kstep_putHand (fuel : Nat) {g : EvId} {t0 : ℚ} {nl nd : Nat} {i : Int}
     (hp : popMin s.agenda = some (q, rest)) (hrest : rest.Perm (a.wire.entries ++ a.src.entries)) :
     ∃ s', step (body cfg losses delays) (fuel + 1) s = .ok s' ∧
       KInv s' { a with pend := none, wire := .H g i ⟨q.time, NORMAL, s.eid, g⟩ t0 nl nd, items := is } ∧
-      s'.now = q.time ∧ outsOf s'.trace = outsOf s.trace := by
+      s'.now = q.time ∧ outsOf s'.trace = outsOf s.trace ∧ leftsOf s'.trace = leftsOf s.trace := by
   obtain ⟨hkind, hcbs, hout⟩ := hk.pend q hpe
   have hcbs0 := hcbs
   have hgs : q.ev < s.events.size := KState.lt_of_cbs hcbs
